@@ -403,8 +403,33 @@ def run_c13(ctx, chk):
     chk.cover('branched lookups', nb.eps, ['insert_characters', 'delete_characters'])
     footprint_row(ctx, chk, ['insert_characters', 'delete_characters'])
     blank_provenance(ctx, chk, ['insert_characters', 'delete_characters'], 'default_char')
-    from .rules_c01 import panic_obligations
+    # must-footprint: every cell from the cursor column to the right edge is rewritten (stored or
+    # removed) - a loop that touches the cell of its element in every iteration, cannot be left early
+    # and covers [cursor column, columns)
     sr = ctx.screen_run()
+    eng = sr['engine']
+    loops = g.cell_store_loops(ctx, sr, touch=True)
+    for m in ('insert_characters', 'delete_characters'):
+        f = ep(m)
+        bad = []
+        cnt = 0
+        for r, st, ret in each_final(sr, f):
+            cnt += 1
+            x0, cols = st.vn[('entry', 'x')], st.vn[('entry', 'columns')]
+            ok = False
+            why = 'no loop that rewrites a cell of the cursor row in every iteration is run'
+            for ev in st.event_list():
+                if ev[0] == 'loop-head' and ev[1] in funcs and len(ev) > 4 and ev[4] is not None and 'cursor-row' in loops.get((f, ev[1], ev[2]), ()):
+                    okc, w = g.range_covers(eng, st, ev[4], x0, cols)
+                    if okc:
+                        ok = True
+                        break
+                    why = 'the loop over %s..%s%s does not cover cursor column .. right edge (%s)' % (g.term(eng, st, ev[4][1]), '=' if ev[4][3] else '', g.term(eng, st, ev[4][2]), w)
+            if not ok:
+                bad.append('[%s] %s' % (r.label, why))
+        chk.instance('R-MUSTFOOT', short(f), 'every cell from the cursor column to the right edge is rewritten', cnt > 0 and not bad,
+                     detail='; '.join(bad[:2]) or '%d exit paths' % cnt, span=ctx.prog.bodies[f].span, what='%s leaves cells of the rest of the row untouched: %s' % (m, '; '.join(bad[:2])))
+    from .rules_c01 import panic_obligations
     panic_obligations(chk, 'C13', sr['engine'], only_funcs=funcs)
 
 
@@ -589,11 +614,11 @@ def must_footprint(ctx, chk, scope):
             return lo if lo == hi else None
         return None
 
-    def path_loops(evs, want_row):
+    def path_loops(evs, want_row, epn):
         out = []
         for ev in evs:
             if ev[0] == 'loop-head' and ev[1] in scope and len(ev) > 4 and ev[4] is not None:
-                rows = loops.get((ev[1], ev[2]))
+                rows = loops.get((epn, ev[1], ev[2]))
                 if rows and (want_row is None or want_row in rows):
                     out.append(ev)
         return out
@@ -623,7 +648,7 @@ def must_footprint(ctx, chk, scope):
             if rng is None:
                 continue
             cnt += 1
-            cands = path_loops(st.event_list(), 'cursor-row')
+            cands = path_loops(st.event_list(), 'cursor-row', f)
             ok = False
             why = 'no loop that stores a cell of the cursor row in every iteration is run'
             for ev in cands:
@@ -676,7 +701,7 @@ def must_footprint(ctx, chk, scope):
                 want_row = ('elem', d_outer[1].key(), d_outer[2].key(), bool(d_outer[3])) if d_outer and isinstance(d_outer[1], NumV) and isinstance(d_outer[2], NumV) else None
                 inner_ok = False
                 for e2 in lev:
-                    if e2[0] == 'loop-head' and e2[1] in scope and len(e2) > 4 and e2[4] is not None and want_row in loops.get((e2[1], e2[2]), ()):
+                    if e2[0] == 'loop-head' and e2[1] in scope and len(e2) > 4 and e2[4] is not None and want_row in loops.get((f, e2[1], e2[2]), ()):
                         c2 = sg['st'].vn.get(('entry', 'columns'))
                         okc, w2 = g.range_covers(eng, sg['st'], e2[4], NumV(None, 0, 'u32'), c2)
                         if okc:
@@ -878,6 +903,34 @@ def ildl_region(ctx, chk):
         for (ff, c), a in sorted(agg.items()):
             chk.instance('R-FOOT', ff, c, a['ok'], detail=a['why'] or '%d visits' % a['n'], span=a['span'], what=a['why'])
         chk.floor('%s row-operation sites' % meth, len(agg), 1)
+        # must-footprint: when the cursor is inside the region every row from the cursor row to the
+        # bottom margin is rewritten (moved, replaced or removed)
+        rloops = g.row_touch_loops(ctx, sr)
+        scope_f = closures_of(ctx, {f})
+        badm = []
+        nact = 0
+        for r, st, ret in each_final(sr, f):
+            evs = st.event_list()
+            if not any(ev[0] in ('map.insert', 'map.remove') and ev[1] == ('S', 'buffer') for ev in evs) and \
+                    not any(ev[0] == 'loop-head' and ev[1] in scope_f for ev in evs):
+                continue      # not an acting path (cursor outside the region)
+            nact += 1
+            y0, lines = st.vn[('entry', 'y')], st.vn[('entry', 'lines')]
+            tb = margins_tb(eng, st)
+            bottom = tb[1] if tb else NumV(lines.sym, lines.k - 1, 'u32')
+            okm = False
+            why = 'no loop that rewrites the row of its element in every iteration is run'
+            for ev in evs:
+                if ev[0] == 'loop-head' and ev[1] in scope_f and len(ev) > 4 and ev[4] is not None and ev[4][0] == 'range' and (f, ev[1], ev[2]) in rloops:
+                    okc, w = g.range_covers(eng, st, ev[4], y0, NumV(bottom.sym, bottom.k + 1, 'u32'))
+                    if okc:
+                        okm = True
+                        break
+                    why = 'the row loop %s..%s%s does not cover cursor row ..= bottom margin (%s)' % (g.term(eng, st, ev[4][1]), '=' if ev[4][3] else '', g.term(eng, st, ev[4][2]), w)
+            if not okm:
+                badm.append('[%s] %s' % (r.label, why))
+        chk.instance('R-MUSTFOOT', short(f), 'every row from the cursor row to the bottom margin is rewritten', nact > 0 and not badm,
+                     detail='; '.join(badm[:2]) or '%d acting exit paths' % nact, span=prog.bodies[f].span, what='%s leaves rows of the region untouched: %s' % (meth, '; '.join(badm[:2])))
         bad = []
         cnt = 0
         for r, st, ret in each_final(sr, f):
